@@ -465,6 +465,20 @@ SCENARIO(pool_2_wait) {
   }
   w.after_dtor();
 }
+// one pool thread, two producers that each wait for their item: reaches the blocking push() path
+SCENARIO(pool_1_wait2) {
+  PoolWorld w(2, 1);
+  {
+    unifex::static_thread_pool pool(1);
+    auto sched = pool.get_scheduler();
+    int t2 = rt::spawn([&] { w.ops.enq(sched, 0); w.wait_ran(0); });
+    int t3 = rt::spawn([&] { w.ops.enq(sched, 1); w.wait_ran(1); });
+    rt::join(t2); rt::join(t3);
+    w.stop_begun = true;
+    rt::obs("dtor.begin");
+  }
+  w.after_dtor();
+}
 SCENARIO(pool_2a) {
   PoolWorld w(1, 2);
   {
